@@ -51,6 +51,10 @@ pub enum Prior {
     SeedRound,
     /// port p (P2P) made faulty first
     Faulty(usize),
+    /// foreign master 0 announces twice, four BMCA runs pass in silence (its records age
+    /// out), then the receipt timeout fires on its port; masters not listed in `arrival`
+    /// stay silent in the final round
+    SlaveSilenceTimeout,
 }
 
 #[derive(Clone, Debug, PartialEq, Serialize, Deserialize)]
@@ -65,6 +69,9 @@ pub struct Case {
     pub port_order: Vec<usize>,
     /// order in which the foreign masters' Announces arrive in the final round
     pub arrival: Vec<usize>,
+    /// set_clock_quality(class, accuracy, variance) right before the final round
+    #[serde(default)]
+    pub quality_change: Option<(u8, u8, u16)>,
 }
 
 fn gm_id(x: u8) -> [u8; 8] {
@@ -205,6 +212,17 @@ fn execute(c: &Case) -> Result<(Obs, Obs), simcore::report::Caught> {
                     let _ = general(node, f.port, &a);
                     let _ = node.bmca();
                 }
+                Prior::SlaveSilenceTimeout => {
+                    let f = c.fms[0];
+                    let a = peers[0].announce();
+                    let _ = general(node, f.port, &a);
+                    let a = peers[0].announce();
+                    let _ = general(node, f.port, &a);
+                    for _ in 0..4 {
+                        let _ = node.bmca();
+                    }
+                    let _ = receipt_timeout(node, f.port);
+                }
                 Prior::Faulty(p) => {
                     let mut acts = delay_timer(node, p);
                     let (ctx, _) = take_ctx(&mut acts).expect("harness: no pdelay request");
@@ -215,6 +233,13 @@ fn execute(c: &Case) -> Result<(Obs, Obs), simcore::report::Caught> {
                     let _ = event(node, p, &r1.pdelay_resp(0, true, rc::Ts::default(), 0, &own), time_ns(2000));
                     let _ = event(node, p, &r2.pdelay_resp(0, true, rc::Ts::default(), 0, &own), time_ns(2000));
                 }
+            }
+            if let Some((cl, ac, va)) = c.quality_change {
+                node.inst.set_clock_quality(statime::config::ClockQuality {
+                    clock_class: cl,
+                    clock_accuracy: accuracy_from_octet(ac),
+                    offset_scaled_log_variance: va,
+                });
             }
             // final round: every foreign master announces twice, in the given arrival order
             for round in 0..2 {
@@ -246,7 +271,12 @@ enum ExpDs {
 }
 
 fn reference(c: &Case, before: &Obs) -> Expect {
-    let own = Own { id: OWN_ID, p1: c.own.p1, class: c.own.class, accuracy: c.own.acc, variance: c.own.var, p2: c.own.p2 };
+    let mut own = Own { id: OWN_ID, p1: c.own.p1, class: c.own.class, accuracy: c.own.acc, variance: c.own.var, p2: c.own.p2 };
+    if let Some((cl, ac, va)) = c.quality_change {
+        own.class = cl;
+        own.accuracy = ac;
+        own.variance = va;
+    }
     let ds_of = |k: usize| -> Ds {
         let f = &c.fms[k];
         Ds {
@@ -265,7 +295,9 @@ fn reference(c: &Case, before: &Obs) -> Expect {
     // Erbest per port
     let mut erbest: Vec<Option<usize>> = vec![None; c.n_ports];
     for p in 0..c.n_ports {
-        let ks: Vec<usize> = (0..c.fms.len()).filter(|&k| c.fms[k].port == p).collect();
+        // candidates: the masters that announce (twice) in the final round; with the
+        // SlaveSilenceTimeout prior a master left out has been silent for > 4 intervals
+        let ks: Vec<usize> = (0..c.fms.len()).filter(|&k| c.fms[k].port == p && c.arrival.contains(&k)).collect();
         if ks.is_empty() {
             continue;
         }
@@ -350,7 +382,8 @@ fn judge(c: &Case) -> (Vec<Violation>, String) {
             }
         }
         Some(ExpDs::SelfGm) => {
-            let want = (Pid { clock: OWN_ID, port: 0 }, OWN_ID, (c.own.class, c.own.acc, c.own.var), c.own.p1, c.own.p2, 0u16);
+            let q = c.quality_change.unwrap_or((c.own.class, c.own.acc, c.own.var));
+            let want = (Pid { clock: OWN_ID, port: 0 }, OWN_ID, q, c.own.p1, c.own.p2, 0u16);
             let got = (after.parent.clone(), after.gm, after.gm_q, after.gm_p1, after.gm_p2, after.steps);
             if got != want {
                 push("datasets-after-M1-M2".into(), format!("got {:?} want {:?}", got, want));
@@ -497,6 +530,7 @@ pub fn run(tier: Tier) -> i32 {
                                 prior,
                                 port_order: vec![0],
                                 arrival: vec![0],
+                                quality_change: None,
                             });
                         }
                     }
@@ -527,6 +561,7 @@ pub fn run(tier: Tier) -> i32 {
                                         prior,
                                         port_order: (0..n_ports).collect(),
                                         arrival: vec![0, 1],
+                                        quality_change: None,
                                     };
                                     if (oi + ai + bi + sa as usize + sb as usize) % 7 == 0 {
                                         meta.push(c.clone());
@@ -564,6 +599,36 @@ pub fn run(tier: Tier) -> i32 {
                                     prior,
                                     port_order: vec![0, 1],
                                     arrival: vec![0],
+                                    quality_change: None,
+                                });
+                            }
+                        }
+                    }
+                }
+            }
+        }
+    }
+    run_cases(&mut acc, cases);
+    // stale-data-set histories: slave, silence, receipt timeout, (quality change), final round
+    let mut cases = vec![];
+    for own in &own16 {
+        for a in &sub16 {
+            for b in sub16.iter().step_by(3) {
+                for qc in [None, Some((6u8, 0x21u8, 0x100u16)), Some((255, 0xfe, 0xffff)), Some((200, 0x22, 0x1800))] {
+                    for (n_ports, pb) in [(1usize, 0usize), (2, 1), (2, 0)] {
+                        for arrival in [vec![], vec![1usize]] {
+                            for prior in [Prior::SlaveSilenceTimeout, Prior::Timeout(0), Prior::SeedRound] {
+                                let arrival = if prior == Prior::SeedRound { vec![0, 1] } else { arrival.clone() };
+                                cases.push(Case {
+                                    own: *own,
+                                    n_ports,
+                                    master_only: vec![false; n_ports],
+                                    slave_only: false,
+                                    fms: vec![Fm { attr: *a, steps: 1, sender: SenderRel::Below, port: 0 }, Fm { attr: *b, steps: 0, sender: SenderRel::Above, port: pb }],
+                                    prior,
+                                    port_order: (0..n_ports).collect(),
+                                    arrival,
+                                    quality_change: qc,
                                 });
                             }
                         }
@@ -600,6 +665,7 @@ pub fn run(tier: Tier) -> i32 {
                                             prior: Prior::None,
                                             port_order: vec![0, 1, 2],
                                             arrival: vec![0, 1, 2],
+                                            quality_change: None,
                                         };
                                         if (sa + sb + sc) % 4 == 0 && a.gm == b.gm {
                                             meta.push(c.clone());
